@@ -25,7 +25,7 @@ Ordered field `F` through `fieldScalar T`:
 * `C06_line_piece`              (`PlaneLaws T`) the straight piece: end point `b + len•t`, foot test `0 ≤ ⟨q−b,t⟩ ≤ len`,
                                 `newAlong = ⟨q−b,t⟩`, `newDistance = ⟨q−b,n⟩` (positive below), reference depth;
 * `C06_arc_piece_partial`       (`PlaneLaws T`) the circular piece: radius, begin and end point on the circle about `arcCenter`,
-                                `|newDistance| = |radius − ‖q − center‖|`; `C06_arc_piece_full` (a `Prop`, NOT proved) is the missing
+                                `|newDistance| = |radius − ‖q − center‖|`; `C06_arc_piece_full` (a `Prop`; refuted and replaced in `C06Arc.lean`) was the missing
                                 `acos` bookkeeping;
 * `C06_cartesian_frame`         (optional item) Cartesian systems, *assuming* the result of the closest-point routine: the plane
                                 point is `(± horizontal distance from the trench, height)`, the walk starts at `(0, startRadius)`.
@@ -33,7 +33,10 @@ Satisfiability of every hypothesis set is shown next to the theorem (`Proofs/Lin
 `real_sqrtLaws`, a concrete straight trench evaluated by the kernel through the computable copy `ratToy` of the toy scalar).
 
 NOT proved here: that the Bézier closest-point search returns the orthogonal foot (it is an input of `C06_cartesian_frame`); the
-spherical frame; the sector bookkeeping of the circular branch (`C06_arc_piece_full`); the gap between real and double arithmetic.
+spherical frame; the gap between real and double arithmetic.  The sector bookkeeping of the circular branch is in `Properties/C06Arc.lean`:
+`C06_arc_piece_full` as stated below is FALSE (`C06_arc_piece_full_false`: within ε of the arc's centre the code sets the angle to 0); the corrected
+full-strength statements are `C06_arc_increasing_dip`, `C06_arc_decreasing_dip` and `C06_arc_foot_*` (every point of the plane outside the ε-disc and a
+1e-14 rad sliver, `C06_arc_polar_exhaustive`).
 Which piece wins when several accept the point (smallest `|distance|`, first wins ties) is proved for straight pieces in
 `Properties/C06Walk.lean` (`C06_walk_selects_min`, `C06_walk_along_eq`), together with the characterisation of the wedge at a dip
 jump that no piece accepts (`C06_walk_joint_gap`: recorded known finding `kink-wedge`).
@@ -427,7 +430,7 @@ theorem C06_arc_piece_partial (T : Transc F) (L : PlaneLaws T) (dm : DepthMethod
       show (@segGeom F (fieldScalar T) startRadius check2d θ β len s1).newAlong = _
       rw [hga, u2, hs1a]
 
-/-- **C06** (full statement for the circular piece, NOT proved and not refuted): when the sector test accepts the point, the stored
+/-- **C06** (first full statement for the circular piece; REFUTED in `Properties/C06Arc.lean`, which also proves the corrected statements): when the sector test accepts the point, the stored
 along-value `a` is the arc length from the begin point `b` to the foot of `q` on the circle — i.e. turning `b` about the centre
 by the angle `(θ − β)·a/len` (the turn that takes `b` to the end point when `a = len`) gives a point `foot` such that `q` lies on
 the ray from the centre through `foot` — and the stored distance is `radius − ‖q − center‖` for a dip increasing downwards
